@@ -89,7 +89,34 @@ def run_present_case(case: dict) -> dict:
     rng = random.Random(case["rng_seed"])
     jobs = [puml.job_from_json(j) for j in case["jobs"]]
     name = case["name"]
-    pv = gen.present(jobs, rng, name, case["variant"])
+    variant = case["variant"]
+    gbj_dir = None
+    if variant == "group-by-job":
+        # the -group-by-job route: one file per event, files of different jobs interleaved;
+        # the real pv_files_to_pv_streams regroups them by jobId
+        from tel2puml.pv_to_puml.pv_to_puml import pv_files_to_pv_streams
+        base = gen.present(jobs, rng, name, "fresh-ids")
+        flat = [e for j in base for e in j]
+        rng.shuffle(flat)
+        gbj_dir = tempfile.mkdtemp(prefix="c03-", dir=case["work_dir"])
+        files = []
+        for i, e in enumerate(flat):
+            fp_ = os.path.join(gbj_dir, f"ev{i:04d}.json")
+            with open(fp_, "w") as fh:
+                json.dump(e, fh)
+            files.append(fp_)
+
+        def regroup() -> list[list[dict]]:
+            res = []
+            for _n, streams in pv_files_to_pv_streams(files, name, True):
+                res += [list(s) for s in streams]
+            return res
+        try:
+            pv = regroup()
+        finally:
+            shutil.rmtree(gbj_dir, ignore_errors=True)
+    else:
+        pv = gen.present(jobs, rng, name, variant)
     out: dict[str, Any] = {"status": "ok", "group": case["group"], "variant": case["variant"]}
     try:
         fp = _norm_fp(ingest_only([list(j) for j in pv]))
